@@ -149,7 +149,8 @@ class Req(object):
                  'spawns_after', 'signals_after', 'events_after',
                  'queued_before', 'queued_after', 'excl_before', 'excl_after',
                  'wname', 'accepted', 'done_t', 'done_step', 'well_formed',
-                 'disp_call_end', 'done_seq', 'done_call')
+                 'disp_call_end', 'done_seq', 'done_call', 'disp_jumps',
+                 'done_jumps')
 
     def __init__(self):
         for s in self.__slots__:
@@ -672,6 +673,7 @@ class World(object):
             r.disp_t = self.sim.now
             r.disp_step = self.sim.steps
             r.disp_seq = self.sim.rec('dispatch', r.idx)
+            r.disp_jumps = self.loop.idle_jumps
             r.spawns_before = len(k.spawns)
             r.signals_before = len(k.signals)
             r.events_before = len(self.ctx.events)
@@ -726,6 +728,7 @@ class World(object):
                         r.done_step = ent[2]
                         r.done_seq = ent[0]
                         r.done_call = self.sim.ncalls
+                        r.done_jumps = self.loop.idle_jumps
                         for h in self.reply_hooks:
                             h(r, ent)
 
